@@ -535,6 +535,7 @@ struct Capture {
 struct ReqSpec {
     std::string method, path, body;
     std::vector<std::pair<std::string, std::string>> query, headers, cookies;
+    std::vector<std::string> cookieAttrs;   // per cookie: letters P D S H M E = attributes the client-side Cookie object carries (never sent)
 };
 
 Http::Method methodOf(const std::string& name, bool& ok)
@@ -562,7 +563,19 @@ std::string clientSend(uint16_t port, const ReqSpec& rs, int waitMs = 1500)
             hd->parse(h.second);
             rb.header(std::shared_ptr<Http::Header::Header>(std::move(hd)));
         }
-        for (auto& c : rs.cookies) rb.cookie(Http::Cookie(c.first, c.second));
+        for (size_t ci = 0; ci < rs.cookies.size(); ++ci) {
+            Http::Cookie ck(rs.cookies[ci].first, rs.cookies[ci].second);
+            const std::string at = ci < rs.cookieAttrs.size() ? rs.cookieAttrs[ci] : std::string();
+            for (char a : at) {
+                if (a == 'P') ck.path = std::string("/p");
+                else if (a == 'D') ck.domain = std::string("example.com");
+                else if (a == 'S') ck.secure = true;
+                else if (a == 'H') ck.httpOnly = true;
+                else if (a == 'M') ck.maxAge = 10;
+                else if (a == 'E') ck.ext.insert(std::make_pair(std::string("SameSite"), std::string("Lax")));
+            }
+            rb.cookie(ck);
+        }
         if (!rs.body.empty()) rb.body(rs.body);
         auto resp = rb.send();
         auto st = std::make_shared<std::string>();
@@ -587,12 +600,13 @@ std::vector<std::pair<std::string, std::string>> parsePairs(const std::string& s
     return v;
 }
 
-// rtreq <Method> <pathhex> <query khex:vhex,..|-> <headers Name=hex,..|-> <cookies nhex:vhex,..|-> <bodyhex>
+// rtreq <Method> <pathhex> <query khex:vhex,..|-> <headers Name=hex,..|-> <cookies nhex:vhex,..|-> <bodyhex> [<attributes of the cookie objects: PDSHME|.,..>]
 std::string opRtReq(const std::vector<std::string>& w)
 {
-    if (w.size() != 7) return "bad-op";
+    if (w.size() != 7 && w.size() != 8) return "bad-op";
     ReqSpec rs; rs.method = w[1]; rs.path = unhex(w[2]); rs.query = parsePairs(w[3], ':', true); rs.headers = parsePairs(w[4], '=', false);
     rs.cookies = parsePairs(w[5], ':', true); rs.body = unhex(w[6]);
+    if (w.size() == 8 && w[7] != "-") { for (auto& t : split(w[7], ',')) rs.cookieAttrs.push_back(t == "." ? std::string() : t); }
     // 1. what goes over the wire
     Capture cap; if (!cap.start()) return "capture-failed";
     std::string r1 = clientSend(cap.port, rs);
